@@ -265,6 +265,22 @@ class X86Model(object):
             self.internal.add(path[:plen])
         self.cells[path] = Cell(path, name, modifs, row, opc)
 
+    # -- ModRM / SIB tables built by init_pre_modrm, evaluated statically
+    def modrm_tables(self):
+        if getattr(self, '_modrm', None) is None:
+            o = Obj('x86mndb')
+            o.__dict__['_methods'] = dict((k, self.arch.method('x86allmncs', k)) for k in ('modrm', 'sib', 'modrm_key'))
+            ev = Evaluator({'x86_afs': self.afs})
+            try:
+                ev.call_user(self.arch.method('x86allmncs', 'init_pre_modrm'), [o])
+            except NotConst as e:
+                raise AnalysisError('x86allmncs.init_pre_modrm is outside the statically evaluable subset: %s' % e)
+            self._modrm = o.__dict__['_attrs']
+            for need in ('db_afs', 'db_afs_16', 'db_afs_mm', 'db_afs_xmm', 'fd_afs', 'sib_rez_u32', 'sib_rez_u08_ebp', 'sib_rez_u32_ebp'):
+                if need not in self._modrm:
+                    raise AnalysisError('init_pre_modrm no longer builds self.%s' % need)
+        return self._modrm
+
     # -- vocabulary
     def decoder_names(self):
         """Mnemonic names the decoder can put in an instruction (cells + special_opcodes renames)."""
